@@ -60,12 +60,15 @@ def _links(pid):
         out = {'rule': 'a contract-only stub of T::f is LINKED when another registered unit verifies the real body of T::f and '
                        '(same parameter names) every requires clause of the proved contract is demanded by the stub, every ensures '
                        'clause of the stub is among the proved ones, and every spec function they mention has the same definition text '
-                       'in both generated files; anything else stays an assumption of the unit that declares the stub',
+                       'in both generated files (an unconstrained uninterp symbol of the stub unit is compatible with the prover definition; parameter names '
+                       'are compared up to renaming; a representation invariant shown for every value of its type by a clean type-invariant scan '
+                       'need not be demanded); anything else stays an assumption of the unit that declares the stub',
                'linked': [], 'partly_linked': [], 'assumed_although_body_is_verified_elsewhere': [], 'not_analysed': errs}
         for r in rep:
             e = {'unit': r['unit'], 'fn': r['fn'], 'proved_in': r['proved_in'], 'ensures_linked': len(r['linked_ensures']),
                  'ensures_assumed_only': r['unlinked_ensures'][:12], 'real_requires_not_demanded': r['missing_requires'][:8],
-                 'spec_definitions_differ': r['def_mismatch'][:8], 'params_differ': r['param_mismatch']}
+                 'spec_definitions_differ': r['def_mismatch'][:8], 'params_differ': r['param_mismatch'],
+                 'requires_covered_by_type_invariant_scan': r.get('requires_by_type_invariant', [])[:8]}
             key = {'linked': 'linked', 'partly linked': 'partly_linked'}.get(r['status'], 'assumed_although_body_is_verified_elsewhere')
             out[key].append(e)
         out['counts'] = {k: len(out[k]) for k in ('linked', 'partly_linked', 'assumed_although_body_is_verified_elsewhere')}
